@@ -22,6 +22,13 @@ class C16(Prop):
 
     def harness(self, ctx):
         env = build_bridge(ctx)
+        # the stalled set-up takes as long as the dialer's handshake timeout (45 s): run beside the others
+        import threading
+        stall = {}
+        def run_stall():
+            stall["r"] = C.go_test_overlay(ctx.work, "./utils/tcpbridge/connection/", "TestVerifC16Stall$", OVERLAY, "C16Stall.jsonl", ctx.seed, ctx.tier, timeout=600, extra_env=env)
+        th = threading.Thread(target=run_stall)
+        th.start()
         rc, out, p, dt = C.go_test_overlay(ctx.work, "./utils/tcpbridge/connection/", "TestVerifC16Close$", OVERLAY, "C16Close.jsonl", ctx.seed, ctx.tier, timeout=1800, extra_env=env)
         rows = C.read_jsonl(p)
         if rc != 0 or not rows:
@@ -46,7 +53,12 @@ class C16(Prop):
         rows6 = C.read_jsonl(p6)
         if rc != 0 or not rows6:
             raise RuntimeError("C16 abort-then-concurrent harness did not run: rc=%s\n%s" % (rc, out[-2000:]))
-        return {"rows": rows + rows2 + rows3 + rows4 + rows5 + rows6}
+        th.join()
+        rc, out, p7, dt = stall["r"]
+        rows7 = C.read_jsonl(p7)
+        if rc != 0 or not rows7:
+            raise RuntimeError("C16 stalled-set-up harness did not run: rc=%s\n%s" % (rc, out[-2000:]))
+        return {"rows": rows + rows2 + rows3 + rows4 + rows5 + rows6 + rows7}
 
     def oracle(self, ctx, obs):
         res = []
@@ -54,6 +66,15 @@ class C16(Prop):
             if r["kind"] == "open-count":
                 if r["open"] != 0:
                     res.append(("connections-leaked", "%d of %d bridged connections are still open on the TCP server after both ends are gone" % (r["open"], r["scenarios"]), r))
+                continue
+            if r["kind"] == "stall":
+                rp = {"driver": "TestVerifC16Stall: two TCP clients -> tcp-bridge-frontend -> a websocket peer that accepts the connection and never answers the upgrade request; client A hangs up after 1 s, client B waits", "observed": r}
+                if r.get("err"):
+                    res.append(("bridge-connect-error", r["err"], rp))
+                elif r.get("waiting_client_saw_end_after_ms", -1) < 0 or len(r.get("websocket_sockets_released_after_ms") or []) < r.get("websocket_sockets_opened", 0):
+                    res.append(("stalled-set-up-never-released", "a bridged connection whose websocket set-up is never answered is held for ever: the waiting client saw %s, %d of %d websocket sockets were released within %d ms (one client had hung up after 1 s)" % (
+                        "end of stream after %s ms" % r["waiting_client_saw_end_after_ms"] if r.get("waiting_client_saw_end_after_ms", -1) >= 0 else "no end of stream",
+                        len(r.get("websocket_sockets_released_after_ms") or []), r.get("websocket_sockets_opened", 0), r["bound_ms"]), rp))
                 continue
             if r["kind"] == "abort-then-concurrent":
                 if r.get("bad"):
